@@ -38,3 +38,7 @@ Proof. exact fftnoise_magnitudes. Qed.
 Print Assumptions C18_hermitian_construction.
 Print Assumptions C18_ifft_of_constructed_spectrum_is_real.
 Print Assumptions C18_section_gains.
+Print Assumptions C18_dc_and_nyquist_real.
+Print Assumptions C18_section_response.
+Print Assumptions C18_idft_of_hermitian_is_real.
+Print Assumptions C18_magnitudes_preserved.
